@@ -297,6 +297,14 @@ def step (s : St) (line : String) : St × String :=
       if t < 2 || t > n || n < 2 || nv < 1 then ({ s with live := false, vals := [] }, "err")
       else ({ n := n, t := t, nv := nv, live := true, vals := [] }, "ok")
     | _, _, _ => (s, "bad-op")
+  | ["fcer", n, t, nv, _ctx, _sched, src, tgt, v] =>
+    -- one round-1 p2p message lacks one validator's share: `getRound2Inputs` of the receiver then has no share of
+    -- that dealer for that validator and the ceremony cannot succeed (Props.C11 incomplete_message_leaves_gap)
+    match n.toNat?, t.toNat?, nv.toNat?, src.toNat?, tgt.toNat?, v.toNat? with
+    | some n, some _t, some nv, some src, some tgt, some v =>
+      if src = tgt || src < 1 || tgt < 1 || src > n || tgt > n || v ≥ nv then (s, "bad-op")
+      else ({ s with live := false, vals := [] }, "err")
+    | _, _, _, _, _, _ => (s, "bad-op")
   | ["out", j] =>
     if !s.live then (s, "bad-op") else
     match j.toNat? with
